@@ -211,7 +211,8 @@ class ChainEnv:
 
     def __init__(self, rng, quick):
         self.rng = rng
-        self.kind = str(rng.choice(["holstein", "holstein", "spin", "elec"]))
+        self.kind = str(rng.choice(["holstein", "holstein", "spin", "elec", "spin"]))
+        self.one_site = self.kind == "spin" and bool(rng.random() < 0.4)       # one-site chains: every loop over bonds is empty
         self.objs = {}      # name -> object
         self.info = {}
         self.log = []
@@ -285,7 +286,7 @@ class ChainEnv:
 
     def _build_spin(self):
         rng = self.rng
-        n = int(rng.integers(2, 6)) if rng.random() < 0.8 else 1       # one-site chains too
+        n = 1 if self.one_site else int(rng.integers(2, 6))
         desc = [["spin", f"s{i}"] for i in range(n)]
         self.desc = dict(kind="spin", basis=desc)
         basis = L.build_basis(desc)
@@ -595,6 +596,19 @@ def chain_ops(env):
                 nd.tensor *= 0.5
         return "tn.from_mps+rescale-in-place", [s], False, call, {}
 
+    def op_dense_then_edit(s=None):
+        # the dense array a state / operator hands out is edited in place by the caller
+        if s is None:
+            s = env.pick(env.states() + env.mpos())
+        S = env.objs[s]
+
+        def call():
+            if S.site_num <= 6:
+                d = S.todense()
+                d *= 0.5
+                d[...] = 7.0
+        return "todense+edit-result-in-place", [s], False, call, {}
+
     def op_copy_then_mutate():
         s = env.pick(env.states() + env.mpos())
         S = env.objs[s]
@@ -733,6 +747,7 @@ def chain_ops(env):
 
     env.op_evolve = op_evolve
     env.op_evolve_exact = op_evolve_exact
+    env.op_dense_then_edit = op_dense_then_edit
     return [op_copy, op_metacopy, op_conj, op_to_complex, op_scale, op_add, op_add, op_add_mpdm, op_add_mpo, op_distance,
             op_dot, op_apply, op_apply, op_mpdm_apply, op_mpo_mpo, op_conj_trans, op_variational, op_measure, op_measure,
             op_copy_then_mutate, op_copy_then_mutate, op_from_mps, op_evolve, op_evolve, op_evolve, op_evolve, op_evolve,
@@ -1488,6 +1503,8 @@ def search(run, rng, quick):
                 for h in ("H0", "H1"):
                     for tgt in ("S1", "R0"):
                         sweep.append(lambda h=h, tgt=tgt: env.op_evolve_exact(tgt, h))
+            for tgt in ["S0", "H0"] + [env.pick(env.states() + env.mpos())]:
+                sweep.append(lambda tgt=tgt: env.op_dense_then_edit(tgt))
             order = rng.permutation(len(sweep))
             calls = [sweep[i] for i in order] + [ops[int(rng.integers(0, len(ops)))] for _ in range(14 if quick else 30)]
             for th in calls:
